@@ -110,6 +110,9 @@ def _die_with_parent():
 
 
 def _run_one(modname, params):
+    if os.environ.get('VERIF_DEBUG_HANG'):
+        import faulthandler
+        faulthandler.dump_traceback_later(int(os.environ['VERIF_DEBUG_HANG']), exit=True)
     _die_with_parent()
     _worker_init()
     t0 = time.time()
